@@ -142,6 +142,35 @@ func (t c18Tok) coq() string {
 	return fmt.Sprintf("mkOT %d %s", v, c18Pack(t.Literal))
 }
 
+// c18ShowToks: one line per token for replays: kind literal Lline:Cchar [quoted] [#ordinal] [error]
+func c18ShowToks(toks []c18Tok) string {
+	var parts []string
+	for _, t := range toks {
+		p := fmt.Sprintf("%d %q L%d:C%d", t.Kind, t.Literal, t.Line, t.Char)
+		if t.Quoted {
+			p += " quoted"
+		}
+		if t.Ordinal != 0 {
+			p += fmt.Sprintf(" #%d", t.Ordinal)
+		}
+		if t.Err != "" {
+			p += " error=" + t.Err
+		}
+		parts = append(parts, p)
+	}
+	return strings.Join(parts, " | ")
+}
+
+// c18NeedsRunes: the text has code points that do not show in a JSON string
+func c18NeedsRunes(s string) bool {
+	for _, r := range s {
+		if r < 32 || r > 126 {
+			return true
+		}
+	}
+	return false
+}
+
 // c18ScanAll drives parser.Scanner the way Lexer.Lex does, until the EOF token.  A panic is
 // returned as text.
 func c18ScanAll(src string, prep, ansi bool) (toks []c18Tok, holders int, panicked string) {
@@ -421,9 +450,9 @@ func runC18(seed int64, tier string, out string) {
 		meta.Direct = append(meta.Direct, DirectViolation{Key: "model-assumption", What: "the Go runtime's Unicode behaviour differs from what Model/Lex.v assumes (harness/model error, not a violation of the property): " + b})
 	}
 
-	nRandom, nSoup, nMut, nCorpus, nEsc := 500, 900, 700, 900, 600
+	nRandom, nSoup, nMut, nCorpus, nEsc := 400, 750, 600, 800, 500
 	if tier == "thorough" {
-		nRandom, nSoup, nMut, nCorpus, nEsc = 8000, 16000, 12000, 12000, 8000
+		nRandom, nSoup, nMut, nCorpus, nEsc = 4000, 8000, 6000, 7000, 6000
 	}
 
 	// ---- inputs -------------------------------------------------------------------------------------
@@ -497,7 +526,15 @@ func runC18(seed int64, tier string, out string) {
 		}
 		for _, m := range scanModes {
 			toks, holders, pan := c18ScanAll(in.Src, m[0], m[1])
-			c := map[string]interface{}{"kind": "scan", "origin": in.Origin, "src": in.Src, "runes": fmt.Sprintf("%U", []rune(in.Src)), "prepared": m[0], "ansi_quotes": m[1], "observed": toks, "holders": holders}
+			c := map[string]interface{}{"kind": "scan", "origin": in.Origin, "src": in.Src, "prepared": m[0], "ansi_quotes": m[1], "holders": holders}
+			if c18NeedsRunes(in.Src) {
+				c["runes"] = fmt.Sprintf("%U", []rune(in.Src))
+			}
+			if len(toks) <= 12 || tier != "thorough" {
+				c["observed"] = c18ShowToks(toks)
+			} else {
+				c["observed"] = fmt.Sprintf("%d tokens (re-run parser.Scanner on src)", len(toks))
+			}
 			if pan != "" {
 				meta.Direct = append(meta.Direct, DirectViolation{Key: "scanner-panic", What: "parser.Scanner.Scan panicked: " + pan, Case: c})
 				continue
